@@ -46,6 +46,9 @@ pub fn format(
         }
     }
 
+    // The ranges of a nested block follow those of the enclosing block: restore position order,
+    // which `merge_ranges` relies on.
+    open_structure_remove_range.sort_by_key(|range| range.start);
     merge_ranges(&mut ranges, open_structure_remove_range);
     merge_overlapped_ranges(&mut ranges);
 
